@@ -231,3 +231,47 @@ def check(rep: Report, ctx: Ctx) -> None:
     rep.ob("R13.5", "for line in file: yield json.loads(line)", ok, fi=gj,
            node=loops[0] if loops else gj.node,
            detail="under `if json_per_line`, unconditionally per line")
+    r137(rep, ctx)
+
+
+def r137(rep: Report, ctx: Ctx) -> None:
+    """A document that has produced records is never read again."""
+    rep.rule("R13.7", "the input stream is consumed monotonically: no rewind "
+             "or re-open between two yields of a reader", 1)
+    for name in ("get_jsons_from_file", "JSONDataSource.parse_json_stream"):
+        fi = ctx.func(name)
+        rep.seen(fi)
+        cfg = ctx.cfg(fi)
+        ynodes, rewinds = [], []
+        for nd in cfg.stmt_nodes():
+            st = nd.stmt
+            if st is None or isinstance(st, (ast.FunctionDef, ast.ClassDef)):
+                continue
+            from ..cfg import _header_parts
+            for part in _header_parts(st):
+                for x in ast.walk(part):
+                    if isinstance(x, (ast.Yield, ast.YieldFrom)):
+                        ynodes.append(nd.id)
+                    if isinstance(x, ast.Call) and isinstance(
+                            x.func, ast.Attribute) and x.func.attr in (
+                            "seek", "rewind"):
+                        rewinds.append((nd.id, x))
+                    if isinstance(x, ast.Call) and dotted(x.func) in (
+                            "open", "io.open", "codecs.open"):
+                        rewinds.append((nd.id, x))
+        bad = []
+        for nid, call in rewinds:
+            before = any(nid in cfg.reachable(y) and y != nid for y in ynodes)
+            after = any(y in cfg.reachable(nid) for y in ynodes)
+            if before and after:
+                bad.append(call)
+        # opening the file once, before anything was yielded, is the normal
+        # way to obtain the stream: only a rewind *between* yields counts
+        rep.ob("R13.7", f"{fi.name}: no rewind between yields", not bad,
+               fi=fi, node=bad[0] if bad else fi.node,
+               detail=(f"'{unparse(bad[0])}' can run after a document was "
+                       "yielded and before another one is: documents "
+                       "already delivered are parsed and delivered again"
+                       if bad else
+                       f"{len(ynodes)} yield site(s), {len(rewinds)} "
+                       "seek/open call(s), none between two yields"))
